@@ -155,7 +155,8 @@ def _run(prog, chk):
     fc = prog.fn("asyncClient_calculateRequestId", "net_async.c")
     cp = fc.params[0]["n"]
     FULL = K("KSI_ASYNC_REQUEST_CACHE_FULL")
-    for size, pending, received, count, occupied_next in ((4, 3, 0, 1, 0), (4, 2, 1, 1, 0), (4, 2, 0, 1, 0), (4, 0, 0, 3, 0), (4, 1, 0, 1, 1), (1, 0, 0, 1, 0)):
+    for size, pending, received, count, occupied_next in ((4, 3, 0, 1, 0), (4, 2, 1, 1, 0), (4, 2, 0, 1, 0), (4, 0, 0, 3, 0), (4, 1, 0, 1, 1), (1, 0, 0, 1, 0),
+                                                            (2, 0, 0, 1, 0), (3, 0, 0, 2, 0), (3, 0, 0, 1, 0), (3, 1, 0, 1, 1), (4, 2, 0, 2, 1), (4, 0, 0, 0, 0)):
         inputs = {cp: Ptr("cl"), fc.params[1]["n"]: Ptr("ID"), fc.params[2]["n"]: Ptr("OFF"), "cl->reqCache": Ptr("cache"), "cl->options[%d]" % CSIZE: size,
                   "cl->pending": pending, "cl->received": received, "cl->requestCount": count, "cl->requestCountOffset": 7}
         for s in range(0, 6):
@@ -173,8 +174,14 @@ def _run(prog, chk):
             ok = q.ret == FULL and not idv
             want = "KSI_ASYNC_REQUEST_CACHE_FULL (outstanding %d == usable slots %d)" % (pending + received, size - 1)
         else:
-            ok = q.ret == 0 and len(idv) == 1 and isinstance(idv[0], int) and 1 <= idv[0] < size and inputs.get("cache[%d]" % idv[0]) == 0
-            want = "a free slot in 1..%d" % (size - 1)
+            gen = [s_[2] for s_ in q.stores("*" + fc.params[2]["n"])]
+            # the (generation, slot) pair is a fresh id: when the search had to wrap round to a slot at or below the one used last,
+            # the generation (upper 32 bits of the request id) must have moved on, otherwise the previous occupant's id is reused
+            wrapped = bool(idv) and isinstance(idv[0], int) and idv[0] <= count
+            want_gen = (7 + 1) % 0xff if wrapped else 7
+            ok = q.ret == 0 and len(idv) == 1 and isinstance(idv[0], int) and 1 <= idv[0] < size and inputs.get("cache[%d]" % idv[0]) == 0 and gen == [want_gen]
+            want = "a free slot in 1..%d with generation %d" % (size - 1, want_gen)
+            idv = idv + ["generation %s" % gen]
         chk.ob("C13.cache", "calculateRequestId[size=%d,pending=%d,received=%d,next=%d%s]" % (size, pending, received, count, ",busy" if occupied_next else ""),
                ok, "expected %s; source returns %s with slot %s" % (want, hex(q.ret) if isinstance(q.ret, int) else q.ret, idv), loc=fc.loc(), fn=fc)
     # id composition and accounting in addRequest
